@@ -400,6 +400,28 @@ def check_quantity(ctx, c):
     compare_accept(text, ("ACCEPT",) + ref[2:], q.units, "UnitValue(str)")
 
 
+# ---- thorough tier: coverage-guided campaign (Atheris) with the reference oracle inside the target ----------
+
+def enum_atheris(ctx):
+    if ctx.tier != "thorough":
+        return
+    yield {"corpus": "empty", "runs": 1500000, "seed": ctx.seed}
+    yield {"corpus": "empty", "runs": 1500000, "seed": ctx.seed + 1000}
+
+
+def check_atheris(ctx, c):
+    from vlib import atheris_run
+    if not atheris_run.available():
+        ctx.skip("atheris is not installed (setup.sh could not install it)")
+        return
+    execs, fail = atheris_run.campaign("unit_text_fuzz.py", c["runs"], c["seed"], prop="C18")
+    ctx.note(c, True, ["atheris"])
+    ctx.count("atheris_executions", execs)
+    if fail:
+        raise Violation("Atheris (%d executions): %s ; input saved as %s (re-run: %s)" % (execs, fail["message"], fail["artifact"], fail["rerun"]),
+                        key="atheris")
+
+
 FACETS = [
     Facet("one_factor", check_one, enumerate=enum_one, shards=(2, 2)),
     Facet("two_factor", check_two, enumerate=enum_two, shards=(6, 16)),
@@ -407,4 +429,5 @@ FACETS = [
     Facet("roundtrip", check_roundtrip, strategy=strat_roundtrip, examples=(6000, 300000), shards=(6, 16)),
     Facet("malformed", check_malformed, strategy=strat_malformed, examples=(6000, 200000), shards=(6, 16)),
     Facet("quantity", check_quantity, strategy=strat_quantity, examples=(3000, 100000), shards=(4, 16)),
+    Facet("atheris", check_atheris, enumerate=enum_atheris, shards=(2, 2)),
 ]
